@@ -31,14 +31,16 @@ KF_TEXT = ("RankInvariantChecker.evaluate never returns when the bound of some n
 class Recorder:
     """A user-level decision maker: records every matrix it is asked to evaluate."""
 
-    def __init__(self, inner, drop=None, drop_from=0):
-        self.inner, self.drop, self.drop_from = inner, drop, drop_from
+    def __init__(self, inner, drop=None, drop_from=0, drop_until=None):
+        self.inner, self.drop, self.drop_from, self.drop_until = inner, drop, drop_from, drop_until
         self.seen = []
 
     def evaluate(self, dm):
         self.seen.append({"alternatives": [str(a) for a in dm.alternatives],
                           "matrix": dm.matrix.to_numpy(copy=True)})
         call = len(self.seen) - 1
+        if self.drop_until is not None and call >= self.drop_until:
+            return self.inner.evaluate(dm)
         if isinstance(self.drop, list):
             if call >= self.drop_from:
                 dm = dm.loc[[a for a in dm.alternatives if a not in self.drop]]
@@ -59,13 +61,14 @@ def gen_case(rng):
         for k in range(i):
             if mtx[i] == mtx[k]:
                 mtx[i][0] += 0.125 * (i + 1)
-    drop = rng.choice([None, None, None, "every", "later"])
+    # "first": only the reference evaluation (of the original matrix) loses the alternative; refused unless allowed
+    drop = rng.choice([None, None, None, "every", "later", "first"])
     return {"matrix": mtx, "objectives": gen.objectives(rng, m), "weights": gen.weights(rng, m, "dyadic"),
             "alternatives": gen.labels(rng, n, gen.LABEL_POOL_A, "A", kinds=False),
             "criteria": gen.labels(rng, m, gen.LABEL_POOL_C, "C", kinds=False),
             "dmaker": rng.choice(["topsis", "ratio", "refpoint"]),
             "repeat": rng.randint(1, 3), "strategy": rng.choice(["median", "mean", "max", "min"]),
-            "seed": rng.choice([0, rng.randint(0, 10 ** 6), rng.randint(0, 10 ** 6), rng.randint(0, 10 ** 6), 2 ** 32 - 1]), "drop": drop, "allow_missing": rng.random() < 0.7}
+            "seed": rng.choice([0, rng.randint(0, 10 ** 6), rng.randint(0, 10 ** 6), rng.randint(0, 10 ** 6), 2 ** 32 - 1]), "drop": drop, "allow_missing": rng.random() < 0.7 and drop != "first"}
 
 
 def experiment(case, via_copy=False):
@@ -78,7 +81,8 @@ def experiment(case, via_copy=False):
     if case["drop"] == "two":
         drop_alt = list(case["alternatives"][-2:])
     rec = Recorder(M.make({"name": case["dmaker"]}), drop=drop_alt,
-                   drop_from=0 if case["drop"] == "every" else 2)
+                   drop_from=0 if case["drop"] in ("every", "first") else 2,
+                   drop_until=1 if case["drop"] == "first" else None)
     strat = {"median": "median", "mean": "mean", "max": np.max, "min": np.min}[case["strategy"]]
     chk = RankInvariantChecker(rec, repeat=case["repeat"], last_diff_strategy=strat, random_state=case["seed"],
                                allow_missing_alternatives=case["allow_missing"])
